@@ -74,7 +74,7 @@ Fixpoint fmt_aux (fuel : nat) (n : N) (acc : bytes) : bytes :=
            if n <? 10 then acc' else fmt_aux f (n / 10) acc'
   end.
 (** strconv.FormatUint(n, 10) *)
-Definition fmt_uint (n : N) : bytes := fmt_aux (S (N.size_nat n)) n [].
+Definition fmt_uint (n : N) : bytes := fmt_aux (S (N.to_nat (N.log2 n + 1))) n [].
 (** strconv.Itoa *)
 Definition fmt_int (z : Z) : bytes :=
   if (z <? 0)%Z then 45 :: fmt_uint (Z.to_N (- z)) else fmt_uint (Z.to_N z).
